@@ -92,6 +92,25 @@ async fn main() -> Result<(), Box<dyn std::error::Error>> {
         mdns: config.network.mdns,
     });
 
+    #[cfg(sierradb_verif)]
+    if let Ok(addrs) = std::env::var("SIERRA_VERIF_DIAL") {
+        let cluster_ref = cluster_ref.clone();
+        let addrs: Vec<libp2p::Multiaddr> = addrs.split(',').filter_map(|a| a.parse().ok()).collect();
+        tokio::spawn(async move {
+            loop {
+                for addr in &addrs {
+                    let _ = cluster_ref
+                        .tell(sierradb_cluster::VerifDial {
+                            addr: addr.clone(),
+                            expected_peers: node_count.saturating_sub(1),
+                        })
+                        .await;
+                }
+                tokio::time::sleep(Duration::from_millis(500)).await;
+            }
+        });
+    }
+
     let client_addr: SocketAddr = config.network.client_address.parse()?;
     let shutdown = CancellationToken::new();
     let server_handle = tokio::spawn({
